@@ -13,6 +13,7 @@ import pandas as pd
 from tabulate import tabulate
 
 from glotaran.io import load_parameters
+from glotaran.parameter.parameter import PARAMETER_EXPRESSION_REGEX
 from glotaran.parameter.parameter import Parameter
 from glotaran.utils.ipython import MarkdownStr
 from glotaran.utils.sanitize import pretty_format_numerical
@@ -315,15 +316,28 @@ class Parameters:
         ValueError
             Raised if an expression evaluates to a non-numeric value.
         """
+        evaluated: set[str] = set()
+
+        def evaluate(parameter: Parameter, pending: frozenset[str]):
+            if parameter.expression is None or parameter.label in evaluated | pending:
+                return
+            # Referenced expression parameters need to be evaluated first,
+            # independent of the order the parameters were declared in.
+            for match in PARAMETER_EXPRESSION_REGEX.finditer(parameter.expression):
+                label = match.group("parameter_expression")
+                if self.has(label):
+                    evaluate(self.get(label), pending | {parameter.label})
+            value = self._evaluator(parameter.transformed_expression)
+            if not isinstance(value, (int, float)):
+                raise ValueError(
+                    f"Expression '{parameter.expression}' of parameter '{parameter.label}' "
+                    f"evaluates to non numeric value '{value}'."
+                )
+            parameter.value = value
+            evaluated.add(parameter.label)
+
         for parameter in self.all():
-            if parameter.expression is not None:
-                value = self._evaluator(parameter.transformed_expression)
-                if not isinstance(value, (int, float)):
-                    raise ValueError(
-                        f"Expression '{parameter.expression}' of parameter '{parameter.label}' "
-                        f"evaluates to non numeric value '{value}'."
-                    )
-                parameter.value = value
+            evaluate(parameter, frozenset())
 
     def get_label_value_and_bounds_arrays(
         self, exclude_non_vary: bool = False
